@@ -347,6 +347,8 @@ func (g *Gen) c06Conc(cls, tmpl string, names []string, progs [][][]string, acce
 //	shape 1: disjoint with values of different lengths (incl. the empty value and a value with a separator-like byte)
 //	shape 2: a grid: the goroutines' tuples are a_i x b_j combinations, so a mixed tuple IS another goroutine's own key set
 //	shape 3: overlapping: neighbouring goroutines also send one common key set (sharing a pipeline is right then)
+//	shape 4: many key sets, two thirds of them sent by ALL goroutines: the same key set is seen for the first time by
+//	         several connections at the same moment (the creation of a pipeline under the global map's mutex)
 func (g *Gen) c06ConcProgs(shape, G, L, n int) [][][]string {
 	progs := make([][][]string, G)
 	val := func(gi, l, f int) string {
@@ -363,6 +365,12 @@ func (g *Gen) c06ConcProgs(shape, G, L, n int) [][][]string {
 			t := make([]string, n)
 			for f := 0; f < n; f++ {
 				switch shape {
+				case 4:
+					if l%3 != 0 {
+						t[f] = fmt.Sprintf("%c.all.%d", 'a'+f, l)
+					} else {
+						t[f] = fmt.Sprintf("%c.own%d.%d", 'a'+f, gi, l)
+					}
 				case 2:
 					// field f of goroutine gi: index (gi + f*l) mod G - all goroutines draw from the same G values per field
 					t[f] = fmt.Sprintf("%c%d", 'a'+f, (gi+f*(l+1))%G)
@@ -393,11 +401,14 @@ func c06ConcGen(g *Gen) {
 	g.c06Conc("batches", "$k0-$k1", c06DefaultNames[:2], g.c06ConcProgs(0, 4, 1, 2), g.Pick(100, 300), 100, 0, 3)
 	// budget: records per case (all goroutines together); the model runs every step of every record
 	budget := g.Pick(40000, 120000)
-	for i := 0; i < g.Pick(22, 400); i++ {
+	for i := 0; i < g.Pick(25, 400); i++ {
 		n := r.Range(1, 3)
 		G := r.PickInt([]int{2, 2, 3, 4, 4, 6, 8})
 		L := r.Range(1, 3)
-		shape := i % 4
+		shape := i % 5
+		if shape == 4 {
+			L = r.PickInt([]int{12, 30, 60})
+		}
 		tmpls := c06Templates(n)
 		tmpl := tmpls[r.Intn(len(tmpls))]
 		progs := g.c06ConcProgs(shape, G, L, n)
